@@ -263,6 +263,6 @@ def steer(d, spec, prov):
 
 
 SUBCHECKS = [
-    SubCheck("single", run_case, strategy=lambda: st_case(threaded=False), quick=1600, thorough=60000),
-    SubCheck("threaded", run_case, strategy=lambda: st_case(threaded=True), quick=1200, thorough=40000),
+    SubCheck("single", run_case, strategy=lambda: st_case(threaded=False), quick=4000, thorough=120000),
+    SubCheck("threaded", run_case, strategy=lambda: st_case(threaded=True), quick=3000, thorough=80000),
 ]
